@@ -6,6 +6,7 @@ package parser
 // values, against a reference written from the OpenAPI 3.0.3 style table.
 
 import (
+	_ "unsafe" // go:linkname
 	"net/http"
 	"net/url"
 
@@ -350,12 +351,16 @@ func admitted(loc, style int, explode bool, shape int) bool {
 	if err := p.validateParamStyle(param, p.rootFileOrZero()); err != nil {
 		return false
 	}
-	// generator filter (gen/gen_parameters.go isSupportedParamStyle): spaceDelimited is not implemented
-	if loc == 1 && style == 1 {
+	// generator filter: the REAL gen.isSupportedParamStyle (gen imports this package, so the harness reaches it
+	// through go:linkname; under the engine the call is redirected to its SSA body - check.json "links")
+	if err := zzGenSupported(param); err != nil {
 		return false
 	}
 	return true
 }
+
+//go:linkname zzGenSupported github.com/ogen-go/ogen/gen.isSupportedParamStyle
+func zzGenSupported(param *openapi.Parameter) error
 
 func buildValue(shape, l1, l2, l3, nameset int) (shapeVal, bool) {
 	var v shapeVal
